@@ -35,6 +35,7 @@ fn main() {
         ("record", "syncer-slow") => syncer::record_slow(&args),
         ("record", "syncer-aging") => syncer::record_aging(&args),
         ("record", "daser") => daser::record(&args),
+        ("record", "daser-aging") => daser::record_aging(&args),
         ("replay", "daser") => daser::replay(&args),
         ("record", "pruner") => pruner::record(&args),
         ("record", "store") => store::record(&args),
